@@ -145,6 +145,20 @@ Disallow ==
   /\ \E o \in 1..st.no : st.oclones[o] > 0 /\ st.ostate[o] \in {"created", "inuse"} /\
        Do([a |-> "disallow", o |-> o], DisallowObs(st, o))
 
+NumSubs == LET RECURSIVE Sum(_)
+               Sum(o) == IF o = 0 THEN 0 ELSE (st.onext[o] - 1) + Sum(o - 1)
+           IN Sum(st.no)
+SubscribeA ==
+  /\ Quiet /\ Budget /\ NumSubs < MaxSubs
+  /\ \E o \in 1..st.no : st.oclones[o] > 0 /\
+       Do([a |-> "subscribe", o |-> o, eff |-> <<>>], Subscribe(st, o, <<>>))
+UnsubscribeA ==
+  /\ Quiet /\ Budget /\ MaxSubs > 0
+  /\ \E o \in 1..st.no, to \in 1..st.no : st.oclones[o] > 0 /\ st.onext[to] > 1 /\
+       \E t \in 1..(st.onext[to] - 1) :
+          \/ Do([a |-> "unsubscribe", o |-> o, to |-> to, t |-> t], Unsubscribe(st, o, to, t))
+          \/ (o = to /\ Do([a |-> "state_unsubscribe", o |-> o, to |-> to, t |-> t], StateUnsubscribe(st, to, t)))
+
 Begin ==
   /\ Quiet /\ st.round < MaxRounds
   /\ st' = StabiliseBegin(ApiClearLogs(st))
@@ -180,16 +194,22 @@ Expect(s) ==
    inv |-> SortedInv(s),
    cone |-> LET c == coneB \cup ConeOf(s, ObservedNodes(s, LinkedObs(s)), {}) IN
             [n \in 1..s.n |-> n \in c],
+   dlv |-> LET d == RefDlv(s)
+               RECURSIVE Go(_)
+               Go(t) == IF t = {} THEN <<>> ELSE
+                        LET m == CHOOSE x \in t : \A y \in t : (x.o < y.o \/ (x.o = y.o /\ x.t <= y.t))
+                        IN <<m>> \o Go(t \ {m})
+           IN Go(d),
    stable |-> IsStable(s),
    cells |-> [n \in 1..s.n |-> s.cell[n]]]
 Finish ==
   /\ Ok(st) /\ st.status = "handlers" /\ st.runq = <<>>
   /\ st' = StabiliseFinish(st)
-  /\ hist' = Append(hist, Expect(st'))
+  /\ hist' = Append(hist, Expect(st))
   /\ UNCHANGED <<coneB, acts>>
 
 Init == /\ st = InitState(MaxH) /\ hist = <<>> /\ coneB = {} /\ acts = 0
-Next == Create \/ Write \/ Observe \/ ObserveLeaked \/ DropObs \/ Disallow
+Next == Create \/ Write \/ SubscribeA \/ UnsubscribeA \/ Observe \/ ObserveLeaked \/ DropObs \/ Disallow
         \/ Begin \/ Step \/ EndA \/ HandlersStep \/ Finish
 Spec == Init /\ [][Next]_vars
 View == <<st>>
@@ -204,6 +224,7 @@ InvFinalArgs == FinalArgs(st)
 InvNoStaleRun == NoStaleRun(st)
 InvOnlyNeeded == OnlyNeeded(st, coneB)
 InvAudit == Audit(st)
+InvExactUpdates == ExactUpdates(st)
 
 \* behaviour export: one REPLAY line per maximal behaviour
 Done == st.status = "idle" /\ (st.round >= MaxRounds \/ acts >= MaxActs) /\ Len(hist) > 0
@@ -215,5 +236,6 @@ Alias == [status |-> st.status, panic |-> st.panic, num |-> st.num, chain |-> st
           def |-> st.def, val |-> st.val, valid |-> st.valid, height |-> st.height,
           par |-> st.par, rch |-> st.rch, rhs |-> st.rhs, created |-> st.created,
           recAt |-> st.recAt, chgAt |-> st.chgAt, cell |-> st.cell, inv |-> st.inv,
-          order |-> st.order, ostate |-> st.ostate, hist |-> hist]
+          order |-> st.order, ostate |-> st.ostate, numH |-> st.numH, dlv |-> st.dlv,
+          histJson |-> ToJson(hist)]
 =============================================================================
